@@ -38,8 +38,18 @@ func (r *multiRunner) Close() {}
 
 func (r *multiRunner) Oracle() []string { return r.fails }
 
+// fail records a direct violation; the message is kept ASCII (the check reads the file as UTF-8).
 func (r *multiRunner) fail(prop, format string, a ...any) {
-	r.fails = append(r.fails, prop+": "+fmt.Sprintf(format, a...))
+	msg := fmt.Sprintf(format, a...)
+	var b strings.Builder
+	for i := 0; i < len(msg); i++ {
+		if c := msg[i]; c >= 0x20 && c < 0x7f {
+			b.WriteByte(c)
+		} else {
+			fmt.Fprintf(&b, "\\x%02x", c)
+		}
+	}
+	r.fails = append(r.fails, prop+": "+b.String())
 }
 
 func mustUnhex(h string) []byte {
@@ -224,7 +234,8 @@ func (r *multiRunner) Step(line string) []string {
 			obs, dec := r.unmarshalObs("mar", byts)
 			r.lastDec = obs
 			r.oracleRoundTrip(m, byts, dec, obs)
-			return "m=" + hexOrDash(byts) + " u=" + obs
+			valid, lexical := multiValid(m)
+			return "m=" + hexOrDash(byts) + " u=" + obs + " wf=" + b01(valid) + " lex=" + b01(valid && lexical)
 		})}
 
 	case "unm", "unmv":
@@ -280,7 +291,7 @@ func isDecimalResolution(s string) bool {
 	return len(p) == 2 && m3uIsDigits(p[0], 1, 20) && m3uIsDigits(p[1], 1, 20)
 }
 
-const multiMaxOffset = 1000000000000000 // 10^15 ns
+const multiMaxOffset = 999999999990000 // just below 10^15 ns (the float envelope's range)
 
 // multiValid: the documented field requirements. lexical = additionally the attribute values
 // that the library passes through verbatim have the RFC 8216 lexical class.
